@@ -2637,6 +2637,9 @@ def translate(items, namespace='Ruint.Gen', imports=('Ruint.Gen.Prelude',), fns=
                 text = extract_fn(src[src.index(it['after']):], it['fn'])
             else:
                 text = extract_fn(src, it['fn'])
+            raw_text = text
+            for k_, v_ in sorted(it.get('subst_after', {}).items(), key=lambda kv: -len(kv[0])):
+                text = text.replace(k_, v_)
             for k_, v_ in it.get('subst', {}).items():
                 # macro metavariables of the enclosing `macro_rules!` arm, instantiated as the macro call does
                 text = text.replace(k_, v_)
@@ -2672,7 +2675,7 @@ def translate(items, namespace='Ruint.Gen', imports=('Ruint.Gen.Prelude',), fns=
                 if len(vals_) == 1 and list(vals_)[0].strip() in WIDTH:
                     em.assoc[an_] = list(vals_)[0].strip()
             # associated types of the enclosing `impl`: the nearest `type X = …;` in front of the function
-            pos_ = src.find(text[:60])
+            pos_ = src.find(raw_text[:60], src.index(it['after']) if it.get('after') else 0)
             if pos_ >= 0:
                 for an_, av_ in re.findall(r'\btype\s+(\w+)\s*=\s*([^;]+);', src[max(0, pos_ - 600):pos_]):
                     try:
@@ -2955,6 +2958,41 @@ def shift_op_items(repo):
             dict(u, fn='shr', lean='uint_shr_uint', key='Uint::shr_uint', after='Shr<Self> for Uint<BITS, LIMBS>')]
 
 
+BIN_OPS = (('Add', 'add', 'AddAssign', 'add_assign', 'wrapping_add', 'add.rs'),
+           ('Sub', 'sub', 'SubAssign', 'sub_assign', 'wrapping_sub', 'add.rs'),
+           ('Mul', 'mul', 'MulAssign', 'mul_assign', 'wrapping_mul', 'mul.rs'),
+           ('Div', 'div', 'DivAssign', 'div_assign', 'wrapping_div', 'div.rs'),
+           ('Rem', 'rem', 'RemAssign', 'rem_assign', 'wrapping_rem', 'div.rs'))
+
+
+def bin_op_items(repo):
+    """the six operator shapes of `impl_bin_op!` (src/macros.rs), instantiated for every invocation found in the sources"""
+    f = repo + '/src/macros.rs'
+    hdr = 'impl<const BITS: usize, const LIMBS: usize> '
+    shapes = (('assign_val', '$fn_assign', hdr + '$trait_assign<Uint<BITS, LIMBS>>'),
+              ('assign_ref', '$fn_assign', hdr + '$trait_assign<&Uint<BITS, LIMBS>>'),
+              ('val_val', '$fn', hdr + '$trait<Uint<BITS, LIMBS>>\n            for Uint<BITS, LIMBS>'),
+              ('val_ref', '$fn', hdr + '$trait<&Uint<BITS, LIMBS>>\n            for Uint<BITS, LIMBS>'),
+              ('ref_val', '$fn', hdr + '$trait<Uint<BITS, LIMBS>>\n            for &Uint<BITS, LIMBS>'),
+              ('ref_ref', '$fn', hdr + '$trait<&Uint<BITS, LIMBS>>\n            for &Uint<BITS, LIMBS>'))
+    out = []
+    for tr, fn, tra, fna, fdel, src in BIN_OPS:
+        inv = 'impl_bin_op!(%s, %s, %s, %s, %s);' % (tr, fn, tra, fna, fdel)
+        try:
+            present = inv in open(repo + '/src/' + src).read()
+        except OSError:
+            present = False
+        for shape, fvar, after in shapes:
+            sub = {'$trait_assign': tra, '$fn_assign': fna, '$trait': tr, '$fn': fn, '$fdel': fdel}
+            a = after
+            for k in ('$trait_assign', '$trait'):
+                pass
+            out.append({'file': f if present else repo + '/src/' + src + '.missing-invocation', 'fn': fvar, 'lean': 'op_%s_%s' % (fn, shape),
+                        'key': 'Uint::op_%s_%s' % (fn, shape), 'self_ty': 'uint', 'uint': True, 'group': 'binops',
+                        'externs': UINT_EXTERNS, 'after': after, 'subst_after': sub})
+    return out
+
+
 def radix_items(repo):
     """src/base_convert.rs: digit-sequence conversions (limb mode; errors are (variant index, fields))"""
     f = repo + '/src/base_convert.rs'
@@ -2981,6 +3019,7 @@ GROUPS = [('core', 'Words', ('Ruint.Gen.Prelude',)),
           ('conv', 'WordsConv', ('Ruint.Gen.WordsUintMod',)),
           ('fls', 'WordsFls', ('Ruint.Gen.WordsUintMod',)),
           ('shiftops', 'WordsShiftOps', ('Ruint.Gen.WordsUint',)),
+          ('binops', 'WordsBinOps', ('Ruint.Gen.WordsUintDiv',)),
           ('value', 'WordsValue', ('Ruint.Gen.Prelude', 'Ruint.Model.Modular')),
           ('gcdv', 'WordsGcd', ('Ruint.Gen.Prelude', 'Ruint.Model.Gcd'))]
 
@@ -3003,6 +3042,7 @@ def translate_all(repo):
     items += conv_items(repo)
     items += fls_items(repo)
     items += shift_op_items(repo)
+    items += bin_op_items(repo)
     items += value_items(repo)
     items += gcd_value_items(repo)
     try:
